@@ -135,11 +135,12 @@ def _run(prop, tier, prof, replay_path, t0, sd, work):
             bm = tp["blob_model"]
             bver = vlib.tlc_verify(prop, bm["constants"], bm["invariants"], work,
                                    workers=bm.get("workers", 8), timeout=bm.get("timeout", 900),
-                                   module="MC_blob.tla", view="ViewBlob", spec="BSpec")
+                                   module="MC_blob.tla", view="ViewBlob", spec="BSpec",
+                                   simulate=bm.get("simulate"))
             log(f"[{prop}] blob model: {bver.get('distinct')} distinct states, "
                 f"{bver.get('generated')} transitions, ok={bver.get('ok')} ({bver['wall_s']}s)")
             verify["blob_model"] = {k: bver.get(k) for k in
-                                    ("distinct", "generated", "depth", "ok", "violated", "wall_s",
+                                    ("distinct", "generated", "depth", "ok", "violated", "wall_s", "mode",
                                      "timeout", "constants")}
             verify["blob_model"]["invariants"] = bm["invariants"]
             if bver.get("violated"):
